@@ -7,24 +7,20 @@ void harness(void)
 {
         size_t cap = h_setup_buffers();
         (void)cap;
-#ifdef FIX_FSM
-        int f = FIX_FSM;   /* one job per machine: the conditional frames then fold to constants */
-#else
         int f = nondet_int();
-#endif
         cat_fsm_type fsm = (cat_fsm_type)f;
-        h_setup_var_f(CAT_VAR_BUF_HEX, fsm);
+        char str[10];
+        { size_t q; for (q = 0; q < 10; q++) str[q] = (char)nondet_uchar(); }
         h_obj.position = nondet_size();
         h_obj.unsolicited_fsm.position = nondet_size();
         g_k = nondet_size(); g_j = nondet_size();
         if (f == CAT_FSM_TYPE_ATCMD || f == CAT_FSM_TYPE_UNSOLICITED) {
                 size_t p = (f == CAT_FSM_TYPE_ATCMD) ? h_obj.position : h_obj.unsolicited_fsm.position;
                 size_t c = (f == CAT_FSM_TYPE_ATCMD) ? CAP_AT(&h_obj) : CAP_UN(&h_obj);
-                g_pfx1 = nondet_size();
-                if (g_pfx1 <= p && p <= c && g_k < g_pfx1)
-                        g_oldtext1 = BUFF(&h_obj, fsm)[g_k];
-                g_pfx = g_pfx1; g_oldtext = g_oldtext1;
+                g_pfx = nondet_size();
+                if (g_pfx <= p && p <= c && g_k < g_pfx)
+                        g_oldtext = BUFF(&h_obj, fsm)[g_k];
         }
-        format_buffer_hexadecimal(&h_obj, fsm);
+        print_string_to_buf(&h_obj, str, fsm);
         __CPROVER_assert(0, "CANARY end of harness reachable");
 }
